@@ -28,6 +28,7 @@ MODEL_VIEW = "model_view L"
 SHARD = 40
 CASE_TIMEOUT = 30
 FNAME = "prog.s"
+MAX_FILE = 100_000
 ROM_CODE = {"low": "LowRom", "low2": "LowRom2", "high": "HighRom"}
 
 
@@ -246,7 +247,8 @@ def front_term(o) -> str:
         return "FNone"
     if o.get("timeout"):
         return "(FRaise EOther)"
-    f = "None" if o.get("file") is None else f"(Some {C.cbytes(bytes(o['file']))})"
+    # very large flat images (a block high up in a 4 MiB ROM) are not shipped: only the status is compared then
+    f = "None" if o.get("file") is None or len(o["file"]) > MAX_FILE else f"(Some {C.cbytes(bytes(o['file']))})"
     if "ret" in o:
         return f"(FReturn {C.z(o['ret'])} {C.cbool(o['announced'])} {f})"
     if "raise" in o:
